@@ -218,14 +218,18 @@ func (h *dnsCryptHandler) ServeDNS(rw dnscrypt.ResponseWriter, r *dns.Msg) (err 
 	ctx = ContextWithRequestInfo(ctx, &RequestInfo{StartTime: time.Now()})
 
 	nrw := NewNonWriterResponseWriter(rw.LocalAddr(), rw.RemoteAddr())
+
+	var msg *dns.Msg
 	written := h.srv.serveDNSMsg(ctx, r, nrw)
 	if !written {
-		// If there was no response from the handler, return SERVFAIL.
-		return rw.WriteMsg(genErrorResponse(r, dns.RcodeServerFailure))
+		// If there was no response from the handler, return SERVFAIL.  It is
+		// normalized below like any other response.
+		msg = genErrorResponse(r, dns.RcodeServerFailure)
+	} else {
+		msg = nrw.Msg()
 	}
 
 	network := NetworkFromAddr(rw.LocalAddr())
-	msg := nrw.Msg()
 	normalize(network, ProtoDNSCrypt, r, msg, dnsCryptMaxMsgSize)
 	if network == NetworkTCP {
 		// normalize only applies the limit to UDP.
